@@ -152,7 +152,7 @@ class Universe:
         self.fail_validate_out: Set[str] = set()
         for g in spec["groups"]:
             self.classes[g["name"]] = self._make_group(g)
-            for f in (g["cols"] if g["kind"] == "root" else g["features"]):
+            for f in (g["cols"] if g["kind"] in ("root", "api") else g["features"]):
                 self.feature_group_of.setdefault(f, g["name"])
 
     # -- class construction -------------------------------------------------------------------------------
@@ -186,7 +186,25 @@ class Universe:
         ns["validate_input_features"] = classmethod(validate_input_features)
         ns["validate_output_features"] = classmethod(validate_output_features)
 
-        if g["kind"] == "root":
+        if g["kind"] == "api":
+            from mloda.provider import ApiData as _ApiInputData
+            cols = g["cols"]
+
+            def input_data(cls: Any) -> Any:
+                return _ApiInputData()
+
+            def calculate_feature(cls: Any, data: Any, features: Any) -> Any:
+                names = sorted(f.get_name() for f in features.features)
+                uni.listener.on_enter(gname, names, [], None, features)
+                for n in names:
+                    if (gname, n) in uni.fail:
+                        raise RuntimeError(f"VERIF-FAULT calc {gname}.{n}")
+                out = native_table(uni._cfw_name_of(cls, features), {k: list(v) for k, v in data.items()})
+                uni.listener.on_exit(gname, names)
+                return out
+            ns["input_data"] = classmethod(input_data)
+            ns["calculate_feature"] = classmethod(calculate_feature)
+        elif g["kind"] == "root":
             cols = g["cols"]
 
             def input_data(cls: Any, _cols: Any = cols) -> Any:
@@ -287,15 +305,23 @@ class Universe:
         n = cls.__name__
         return n.split("_", 1)[1] if n.startswith(self.tag + "_") else n
 
+    def api_data(self) -> Optional[Dict[str, Dict[str, Any]]]:
+        d = {g["key"]: {k: list(v) for k, v in g["cols"].items()} for g in self.spec["groups"] if g["kind"] == "api"}
+        return d or None
+
     def prepare(self, **kw: Any) -> Any:
         from mloda.user import mloda
         load_transformers()
+        if "api_data" not in kw and self.api_data() is not None:
+            kw["api_data"] = self.api_data()
         return mloda.prepare(self.features(), compute_frameworks=self.frameworks(), links=self.links(),
                              plugin_collector=self.collector(), **kw)
 
     def run_all(self, modes: Optional[Set[Any]] = None, **kw: Any) -> Any:
         from mloda.user import mloda, ParallelizationMode
         load_transformers()
+        if "api_data" not in kw and self.api_data() is not None:
+            kw["api_data"] = self.api_data()
         return mloda.run_all(self.features(), compute_frameworks=self.frameworks(), links=self.links(),
                              plugin_collector=self.collector(),
                              parallelization_modes=modes or {ParallelizationMode.SYNC}, **kw)
@@ -316,7 +342,7 @@ def ref_eval_single_root(spec: Dict[str, Any]) -> Dict[str, List[Any]]:
     """All features reachable when every root has the same number of rows and no join is needed (Stage A)."""
     vals: Dict[str, List[Any]] = {}
     for g in spec["groups"]:
-        if g["kind"] == "root":
+        if g["kind"] in ("root", "api"):
             for k, v in g["cols"].items():
                 vals.setdefault(k, list(v))
     changed = True
